@@ -41,6 +41,11 @@ Definition check_ecase (c : ecase) : bool :=
 Fixpoint failing_from {A} (chk : A -> bool) (i : nat) (cs : list A) : list nat :=
   match cs with [] => [] | c :: r => if chk c then failing_from chk (S i) r else i :: failing_from chk (S i) r end.
 Definition qz (n : Z) : qi := (qc n 1, qc 0 1).
+(* the Auto rule: which algorithm the implementation was observed to take (its result equals that rule's, bit for bit) *)
+Definition ealg_eqb (a b : ealg) : bool :=
+  match a, b with APower, APower | AEigh, AEigh | AEig, AEig | ALanczos, ALanczos | AArnoldi, AArnoldi | ALobpcg, ALobpcg => true | _, _ => false end.
+Record acase := mkacase { a_sa : bool; a_small : bool; a_k : Z; a_wh : which; a_tag : ealg }.
+Definition check_acase (c : acase) : bool := ealg_eqb (auto_alg (a_sa c) (a_small c) (a_k c) (a_wh c)) (a_tag c).
 
 (* ---------- power iteration on binary64 ---------- *)
 Open Scope float_scope.
